@@ -357,7 +357,12 @@ ASMJIT_FAVOR_SIZE Error init_func_detail(FuncDetail& func, const FuncSignature& 
           if (TypeUtils::is_int(type_id)) {
             uint32_t reg_id = Reg::kIdBad;
 
-            if (gpz_pos < CallConv::kMaxRegArgsPerGroup) {
+            // Microsoft's __fastcall and __thiscall pass only arguments of DWORD size or smaller in ECX and EDX, a 64-bit
+            // integer (unpacked to two 32-bit values here) goes to the stack as a whole.
+            bool whole_on_stack = func._args[arg_index].count() > 1 &&
+                                  (cc.id() == CallConvId::kFastCall || cc.id() == CallConvId::kThisCall);
+
+            if (gpz_pos < CallConv::kMaxRegArgsPerGroup && !whole_on_stack) {
               reg_id = cc._passed_order[RegGroup::kGp].id[gpz_pos];
             }
 
